@@ -301,3 +301,102 @@ Theorem C17_powershell_generate_structure_src : forall up c bin t1 t2 s1 s2,
 Proof. exact PowershellProofs.powershell_generate_structure_src. Qed.
 Print Assumptions C17_powershell_generate_structure_src.
 (* ---- end of the powershell / elvish block ---- *)
+(* ---- fish generator model ---- *)
+(** Whole-script structure invariance for fish.  [Complete/FishModel.v] is a byte-exact model of
+    clap_complete/src/aot/shells/fish.rs (compared with the real generator's file on every run, streams
+    [fish-model] of C16 and C17).  The file is a list of pieces: [Fx b] text the generator writes itself,
+    [Dsq t] a description written through escape_help between single quotes, [Ddq t] a possible-value help written
+    through escape_double_quoted(escape_help(..)) inside the double-quoted list -- so WHICH slot goes through WHICH
+    escape in WHICH quoting context is part of the model.  [cdesc] carries the texts (about, help,
+    possible-value help), [erase_desc] keeps only which of them are present.  [tame]: none of the bytes 34 (double quote), 39 (single quote), 92 (backslash), 35 (hash). *)
+From ClapModel Require Import Complete.AotTree Complete.FishModel Complete.FishLexProofs.
+
+(** the fixed text of the file does not depend on the description texts *)
+Theorem C17_fish_script_fixed_text : forall c d,
+  fish_pieces c (erase_desc d) = match fish_pieces c d with Some ps => Some (map perase ps) | None => None end.
+Proof. exact fish_pieces_erase. Qed.
+Print Assumptions C17_fish_script_fixed_text.
+
+(** every description text of the whole file is read by the fish lexer as literal payload only: the
+    events of the file are those of the fixed text plus, per slot, [Lit] events carrying the flattened
+    text ([pevents]); the file ends between words *)
+Theorem C17_fish_script_texts_literal : forall c d bin,
+  c_bin c = Some bin -> tame bin = true -> tame_cmd c = true ->
+  exists ps s, fish_pieces c d = Some ps /\ fish_script c d = Some s /\
+    events fish_step FB s = pevents FB ps /\ skeleton (events fish_step FB s) = pskel FB ps /\
+    is_bare (final fish_step FB s) = true.
+Proof. exact fish_texts_literal. Qed.
+Print Assumptions C17_fish_script_texts_literal.
+
+(** the token skeleton (and the final lexer state) of the ENTIRE generated file is the same for any two
+    assignments of description texts with the same presence shape (emptiness does not even matter) *)
+Theorem C17_fish_script_same_skeleton : forall c d1 d2 bin,
+  c_bin c = Some bin -> tame bin = true -> tame_cmd c = true -> erase_desc d1 = erase_desc d2 ->
+  exists s1 s2, fish_script c d1 = Some s1 /\ fish_script c d2 = Some s2 /\
+    skeleton (events fish_step FB s1) = skeleton (events fish_step FB s2) /\
+    final fish_step FB s1 = final fish_step FB s2.
+Proof. exact fish_text_invariance. Qed.
+Print Assumptions C17_fish_script_same_skeleton.
+
+(** the pair of files the harness generates for the oracle (the texts as given / innocuous text of the
+    same emptiness) is an instance *)
+Theorem C17_fish_script_adversarial_innocuous : forall c d bin,
+  c_bin c = Some bin -> tame bin = true -> tame_cmd c = true ->
+  exists s1 s2, fish_script c d = Some s1 /\ fish_script c (innocuous_desc d) = Some s2 /\
+    skeleton (events fish_step FB s1) = skeleton (events fish_step FB s2) /\
+    final fish_step FB s1 = final fish_step FB s2.
+Proof. exact fish_adversarial_innocuous. Qed.
+Print Assumptions C17_fish_script_adversarial_innocuous.
+
+(** the hypotheses are satisfiable: a two-level tame tree, texts with quotes, backslashes, dollar signs,
+    command substitutions and newlines in every slot against innocuous ones; the two files differ *)
+Theorem C17_fish_script_nonvacuous :
+  c_bin lx_root = Some [109; 121; 45; 97; 112; 112] /\ tame [109; 121; 45; 97; 112; 112] = true /\
+  tame_cmd lx_root = true /\ erase_desc lx_adv = erase_desc lx_inn /\ lx_adv <> lx_inn /\
+  fish_script lx_root lx_adv <> fish_script lx_root lx_inn.
+Proof. exact fish_text_invariance_hyps. Qed.
+Print Assumptions C17_fish_script_nonvacuous.
+
+(** class boundary: an option NAME containing a double quote is written unescaped; the description after it
+    is then read inside a double-quoted string and its dollar sign is live (replayed on the real generator: same file) *)
+Theorem C17_fish_script_untamed_name_refuted :
+  exists c d1 d2 bin s1 s2,
+    c_bin c = Some bin /\ tame bin = true /\ tame_cmd c = false /\ erase_desc d1 = erase_desc d2 /\
+    fish_script c d1 = Some s1 /\ fish_script c d2 = Some s2 /\
+    skeleton (events fish_step FB s1) <> skeleton (events fish_step FB s2).
+Proof. exact fish_untamed_name_refuted. Qed.
+Print Assumptions C17_fish_script_untamed_name_refuted.
+
+(** the same at the level of the command tree the user wrote: [generate_fish c d bin] is [set_bin_name] +
+    [Command::build] (the tree by [AotTree.build], the texts by [dbuild]) + the generator.  [build] keeps names
+    tame and treats the texts uniformly, so for two trees that differ only in their description texts
+    [generate] succeeds on both or on neither and the two files have the same token skeleton *)
+From ClapModel Require Import Complete.FishBuildProofs.
+Theorem C17_fish_generate_same_skeleton : forall c d1 d2 bin s1,
+  tame bin = true -> tame_cmd c = true -> erase_desc d1 = erase_desc d2 ->
+  generate_fish c d1 bin = Some s1 ->
+  exists s2, generate_fish c d2 bin = Some s2 /\
+    skeleton (events fish_step FB s1) = skeleton (events fish_step FB s2) /\
+    final fish_step FB s1 = final fish_step FB s2.
+Proof. exact generate_fish_text_invariance. Qed.
+Print Assumptions C17_fish_generate_same_skeleton.
+
+Theorem C17_fish_build_uniform_in_texts : forall c d1 d2,
+  erase_desc d1 = erase_desc d2 -> erase_desc (dbuild c d1) = erase_desc (dbuild c d2).
+Proof. exact dbuild_erase_congr. Qed.
+Print Assumptions C17_fish_build_uniform_in_texts.
+
+Theorem C17_fish_build_keeps_names_tame : forall c bin b,
+  build (set_bin_name c bin) = Some b -> tame_cmd c = true -> tame_cmd b = true.
+Proof. exact build_tame. Qed.
+Print Assumptions C17_fish_build_keeps_names_tame.
+
+(** satisfiable: the example tree as a user tree (no bin name; build adds the help flags and the expanded
+    help subcommand tree), adversarial against innocuous texts; both files exist and differ *)
+Theorem C17_fish_generate_nonvacuous :
+  tame [109; 121; 45; 97; 112; 112] = true /\ tame_cmd lx_user = true /\ erase_desc lx_adv = erase_desc lx_inn /\
+  exists s1 s2, generate_fish lx_user lx_adv [109; 121; 45; 97; 112; 112] = Some s1 /\
+                generate_fish lx_user lx_inn [109; 121; 45; 97; 112; 112] = Some s2 /\ s1 <> s2.
+Proof. exact generate_fish_text_invariance_hyps. Qed.
+Print Assumptions C17_fish_generate_nonvacuous.
+(* ---- end fish generator model ---- *)
